@@ -281,10 +281,10 @@ class DetectReadsWritesCalls( DetectVarNames ):
     { name : [ alternatives ] } """
     if isinstance( value, ast.Call ) and isinstance( value.func, ast.Name ) and not value.keywords:
       func, args = value.func.id, value.args
-      if element and func == 'enumerate' and len( args ) == 1 and \
+      if element and func == 'enumerate' and len( args ) in (1, 2) and \
          isinstance( target, ast.Tuple ) and len( target.elts ) == 2:
         return self._bindings( target.elts[1], args[0], True )
-      if element and func == 'reversed' and len( args ) == 1:
+      if element and func in ( 'reversed', 'list', 'tuple' ) and len( args ) == 1:
         return self._bindings( target, args[0], True )
       if element and func == 'zip' and isinstance( target, ast.Tuple ) and len( target.elts ) == len( args ):
         ret = {}
@@ -299,6 +299,23 @@ class DetectReadsWritesCalls( DetectVarNames ):
       for t, v in zip( target.elts, value.elts ):
         ret.update( self._bindings( t, v, False ) )
       return ret
+
+    def union( parts ):
+      ret = {}
+      for part in parts:
+        ret = self._merge_aliases( ret, part )
+      return ret
+
+    if isinstance( value, ast.IfExp ): # x = s.a if c else s.b
+      return union( [ self._bindings( target, value.body, element ),
+                      self._bindings( target, value.orelse, element ) ] )
+
+    if element and isinstance( value, (ast.List, ast.Tuple) ): # for w in [ s.w1, s.w2 ]
+      return union( [ self._bindings( target, v, False ) for v in value.elts ] )
+
+    if element and isinstance( value, ast.Subscript ) and isinstance( value.slice, ast.Slice ):
+      # for m in s.subs[1:] -- some of the elements of s.subs
+      return self._bindings( target, value.value, True )
 
     if isinstance( target, ast.Name ) and isinstance( value, (ast.Attribute, ast.Subscript, ast.Name) ):
       alts = []
@@ -336,6 +353,44 @@ class DetectReadsWritesCalls( DetectVarNames ):
       else:
         self.visit( x )
 
+  def visit_AnnAssign( self, node ): # x : Bits8 = s.w
+    if node.value is not None:
+      self.visit( node.value )
+      if isinstance( node.target, ast.Name ):
+        self._rebind( node.target, self._bindings( node.target, node.value, False ) )
+      else:
+        self.visit( node.target )
+
+  def visit_NamedExpr( self, node ): # ( x := s.w )
+    self.visit( node.value )
+    self._rebind( node.target, self._bindings( node.target, node.value, False ) )
+
+  def _visit_comprehension( self, node, elts ):
+    # [ m.out for m in s.subs ]: m stands for the elements of s.subs inside
+    # the comprehension only
+    before = { k: list(v) for k, v in self.aliases.items() }
+    for gen in node.generators:
+      binds = self._bindings( gen.target, gen.iter, True )
+      self.visit( gen.iter )
+      self._rebind( gen.target, binds )
+      for cond in gen.ifs:
+        self.visit( cond )
+    for elt in elts:
+      self.visit( elt )
+    self.aliases = before
+
+  def visit_ListComp( self, node ):
+    self._visit_comprehension( node, [ node.elt ] )
+
+  def visit_SetComp( self, node ):
+    self._visit_comprehension( node, [ node.elt ] )
+
+  def visit_GeneratorExp( self, node ):
+    self._visit_comprehension( node, [ node.elt ] )
+
+  def visit_DictComp( self, node ):
+    self._visit_comprehension( node, [ node.key, node.value ] )
+
   def visit_If( self, node ):
     self.visit( node.test )
     before = self.aliases
@@ -354,6 +409,13 @@ class DetectReadsWritesCalls( DetectVarNames ):
     for stmt in node.body + node.orelse:
       self.visit( stmt )
     self.aliases = self._merge_aliases( before, self.aliases )
+    if self.aliases != before:
+      # a name bound at the end of the body is used at its beginning in
+      # the next iteration
+      self.visit( node.test )
+      for stmt in node.body + node.orelse:
+        self.visit( stmt )
+      self.aliases = self._merge_aliases( before, self.aliases )
 
   def visit_Name( self, node ):
     # A local name that stands for a part of the component
@@ -445,8 +507,16 @@ class DetectReadsWritesCalls( DetectVarNames ):
 
     self.aliases.update( binds )
 
+    at_entry = { k: list(v) for k, v in self.aliases.items() }
     for stmt in node.body:
       self.visit( stmt )
+    if self._merge_aliases( at_entry, self.aliases ) != at_entry:
+      # a name bound at the end of the body is used at its beginning in
+      # the next iteration
+      self.aliases = self._merge_aliases( at_entry, self.aliases )
+      self.aliases.update( binds )
+      for stmt in node.body:
+        self.visit( stmt )
     for stmt in node.orelse:
       self.visit( stmt )
     # the body may not have run
